@@ -204,11 +204,22 @@ PROPS["C09"]["trusted_base"] = MIR_TRUSTED
 PROPS["C16"]["trusted_base"] = MIR_TRUSTED
 PROPS["C02"]["trusted_base"] = MIR_TRUSTED
 
+PROPS["C12"] = {
+    "mir": "c12",
+    "level": "other",
+    "explanation": "Symbolic data-flow / path checking over the real MIR (z3): ShardManager::get_shard computes `DefaultHasher(context_id).finish() % shards.len()` from the context id alone with a fixed-key hasher; STORE routes by the command's context id and the event carries the same id; the shard context tags its event ids with its own id (C18 A-1 shows the tag equals that id & 0x3FF); the streaming dispatcher sends the query to every element of all_shards() and records each receiver before moving on.",
+    "trusted_base": MIR_TRUSTED + ["std::hash::DefaultHasher::new() uses fixed keys, i.e. equal inputs hash equally in every process built from the same toolchain"],
+    "outside": [
+        "the hash function itself (SipHash over the string bytes) and its stability across toolchain versions",
+        "a change of the configured shard count between lifetimes, restarts between STOREs (histories)",
+        "the non-streaming / sequence / comparison dispatchers, shard-side handling of the QueryStream message",
+    ],
+}
+
 # Properties not (or not yet) claimed, each with the reason. Entries are removed from here
 # when a check for the property is registered in PROPS.
 NOT_APPLICABLE = {
     "C04": "order is decided by schedules of concurrent flows, BinaryHeap tie-breaking over HashMap-materialised rows and a BTreeMap<String,Vec<Event>> memtable; none of these finishes under Kani (3-row merger > 25 min, 3 inserts > 15 min) and no schedule explorer belongs to this technique",
-    "C12": "the routing hash sits behind ShardManager (tokio senders) and its stability across process lifetimes is a fact about DefaultHasher that no symbolic run observes; fan-out completeness is async; the only reachable kernel (shard tag of event ids) is already decided under C18 A-1/A-3 and alone would be too thin a claim",
     "C14": "everything the statement quantifies over is history-dependent (late events at the high-water second, frame store, pruning by zone creation time, flush barrier) and lives in async / HashMap code; the high-water-mark comparison kernel alone would be a vacuous claim",
     "C15": "group.rs/matcher.rs operate on HashMap<String, GroupedRowIndices> and HashMap-backed candidate zones; at 3-4 min per hash-map operation under Kani no harness with two events per side finishes, and the two-pointer sweep is a data-dependent loop the MIR path engine cannot summarise",
     "C20": "encoders are arrow array builders, serde_json/sonic writers and String formatting over Vec<ScalarValue> batches; none finishes under Kani (serde_json probe exhausted 30 GB) and the equivalence is a data relation, not a guard/ordering fact the MIR engine can state",
